@@ -79,10 +79,12 @@ def dtype_variants_agree(REC, prop, fname, f, X, args=(), kwargs=None, exact=Tru
         raise
     except Exception:  # noqa
         return
-    for dt in (bool, np.int64, np.uint8, np.float32):
+    for dt in (bool, np.int64, np.uint8, np.int8, np.float32):
         if dt is bool and not np.all((X == 0) | (X == 1)):
             continue
         if dt is np.uint8 and (X.min() < 0 or X.max() > 255 or not np.all(X == np.round(X))):
+            continue
+        if dt is np.int8 and (X.min() < -128 or X.max() > 127 or not np.all(X == np.round(X))):
             continue
         if dt is np.int64 and not np.all(X == np.round(X)):
             continue
@@ -93,7 +95,7 @@ def dtype_variants_agree(REC, prop, fname, f, X, args=(), kwargs=None, exact=Tru
         except Exception:  # noqa
             REC.skip(prop, fname, 'dtype_independent')
             continue
-        REC.check(prop, fname, 'dtype_independent', _same_struct(ref, got, 0.0 if (exact and dt is not np.float32) else 1e-5),
+        REC.check(prop, fname, 'dtype_independent', _same_struct(ref, got, 0.0 if (exact and dt is not np.float32) else (1e-5 if dt is np.float32 else 1e-9)),
                   {'X': X, 'dtype': str(np.dtype(dt)), 'float64_result': ref, 'result': got, 'args': list(args)}, ('dtype:' + str(np.dtype(dt)),))
 
 
